@@ -5,7 +5,7 @@
    anything inside the email package) are covered only by the malformed-input law stream of the check, which is testing, not proof. *)
 From Coq Require Import List Arith NArith Bool Lia.
 Import ListNotations.
-Require Import S1 VParse VComplete VTop VTop2 VDec Py VMeaning VCmp SpecModel SpecOps Canon SpecParse SpecContains SpecSem SpecMain SpecLink VWf VKeyEq VInt
+Require Import S1 VParse VComplete VTop VTop2 VDec Py VMeaning VCmp SpecModel SpecOps Canon SpecParse SpecContains SpecSem SpecMain SpecLink VWf VKeyEq VInt CanonLaws
                WheelModel WheelLaws.
 Open Scope N_scope.
 
@@ -31,6 +31,39 @@ Proof.
   destruct (compare_op_total s sp c S (Version_wf _ _ E)) as [b ->]. discriminate.
 Qed.
 Print Assumptions C11_specifier_contains_never_escapes.
+
+(* ... and so is every other int() in Version.__init__: the number of a pre-/post-/dev-release segment (when one is written; an absent
+   number reads as 0 without a conversion) and every all-digit segment of the local label *)
+Definition int_defined (d : list N) : Prop := exists n, undec d = Some n.
+Theorem C11_version_all_int_conversions_defined s sp : parse_spelling s = Some sp ->
+  (forall l, (spre sp = Some l \/ sdev sp = Some l \/ spost sp = Some (PostWord l)) -> l_num l <> [] -> int_defined (l_num l)) /\
+  (forall d, spost sp = Some (PostImplicit d) -> int_defined d) /\
+  (forall h t g, sloc sp = Some (h, t) -> In g (h :: map snd t) -> forallb is_digit g = true -> int_defined g).
+Proof.
+  intros H. destruct (parse_spelling_sound _ _ H) as [_ (_ & _ & _ & _ & _ & _ & Hpre & Hpost & Hdev & Hloc)].
+  assert (LV : forall words l, wf_lv words l -> l_num l <> [] -> int_defined (l_num l)).
+  { intros words l (_ & D & _) NE. apply undec_defined. unfold wf_digits. rewrite D. destruct (l_num l); [congruence|reflexivity]. }
+  repeat split.
+  - intros l [E|[E|E]] NE.
+    + rewrite E in Hpre. exact (LV _ _ Hpre NE).
+    + rewrite E in Hdev. exact (LV _ _ Hdev NE).
+    + rewrite E in Hpost. exact (LV _ _ Hpost NE).
+  - intros d E. rewrite E in Hpost. apply undec_defined. exact Hpost.
+  - intros h t g E Hin Dg. rewrite E in Hloc. unfold wf_loc in Hloc. apply andb_prop in Hloc as [Hh Ht]. cbn [fst snd] in Hh, Ht.
+    assert (NE : nonempty g = true).
+    { destruct Hin as [<-|Hin]; [unfold wf_alnum in Hh; now apply andb_prop in Hh as [? _]|].
+      apply in_map_iff in Hin as (cs & <- & Hcs). rewrite forallb_forall in Ht. specialize (Ht cs Hcs).
+      apply andb_prop in Ht as [_ Ht]. unfold wf_alnum in Ht. now apply andb_prop in Ht as [? _]. }
+    apply undec_defined. unfold wf_digits. now rewrite NE, Dg.
+Qed.
+Print Assumptions C11_version_all_int_conversions_defined.
+
+(* canonicalize_version re-parses what it printed (`_TrimmedRelease(str(parsed))`, a second Version() call): that call cannot fail,
+   neither on str(v) nor on the string of the version with its trailing zeros trimmed *)
+Theorem C11_canonicalize_version_reparse_defined s v : Version s = Some v ->
+  Version (vstr v) = Some v /\ Version (vstr (trim v)) = Some (trim v).
+Proof. intros E. pose proof (Version_wf _ _ E) as W. split; apply CanonLaws.Version_vstr; [exact W | now apply wf_trim]. Qed.
+Print Assumptions C11_canonicalize_version_reparse_defined.
 
 (* canonicalize_version never raises: it is the identity on non-versions and str() of a parsed version otherwise *)
 Theorem C11_canonicalize_version_total z s : (Version s = None /\ canon z s = s) \/ (exists v, Version s = Some v).
